@@ -29,3 +29,14 @@ M("c06_validate_skips_magic", ["C06"], ("Pyro5/protocol.py", "        if tag != 
 M("c06_payload_len_not_checked", ["C06"], ("Pyro5/protocol.py", "        if len(payload) != self.data_size + self.annotations_size:", "        if len(payload) < self.data_size + self.annotations_size:"))
 M("c06_annotation_last_byte", ["C06"], ("Pyro5/protocol.py", "payload[i+8:i+8+length]     # note", "payload[i+8:i+8+length] if length != 1 else payload[i+8:i+8]    # note"))
 M("c06_corr_zero_dropped", ["C06"], ("Pyro5/protocol.py", "        if current_context.correlation_id:\n", "        if current_context.correlation_id and current_context.correlation_id.int:\n"))
+
+# ---------------------------------------------------------------- C17
+M("c17_msglen_not_advanced", ["C17"], ("Pyro5/socketutil.py", "                    msglen = len(chunk)\n                    data.extend(chunk)\n                    break", "                    data.extend(chunk)\n                    break"))
+M("c17_retry_restarts_buffer", ["C17"], ("Pyro5/socketutil.py", "                time.sleep(next(delays))  # a slight delay to wait before retrying\n    except socket.timeout:", "                time.sleep(next(delays))  # a slight delay to wait before retrying\n                data = bytearray(); msglen = 0\n    except socket.timeout:"))
+M("c17_eagain_fatal_recv", ["C17"], ("Pyro5/socketutil.py", "ERRNO_RETRIES = [errno.EINTR, errno.EAGAIN, errno.EWOULDBLOCK, errno.EINPROGRESS]", "ERRNO_RETRIES = [errno.EINTR, errno.EINPROGRESS]"))
+M("c17_send_off_by_one", ["C17"], ("Pyro5/socketutil.py", "                data = data[sent:]", "                data = data[sent + (1 if sent > 1 and len(data) > sent + 1 else 0):]"))
+M("c17_send_resend_on_retry", ["C17"], ("Pyro5/socketutil.py", "                sent = sock.send(data)\n                data = data[sent:]", "                sent = sock.send(data)\n                data = data[sent:] if sent != 2 else data[1:]"))
+M("c17_eof_returns_short", ["C17"], ("Pyro5/socketutil.py", "                if len(data) != size:\n                    err = ConnectionClosedError(\"receiving: not enough data\")", "                if len(data) != size and len(data) < size - 1:\n                    err = ConnectionClosedError(\"receiving: not enough data\")"))
+M("c17_partialdata_dropped", ["C17"], ("Pyro5/socketutil.py", "                    err.partialData = data  # store the message that was received until now\n", ""))
+M("c17_waitall_chunk_dropped_on_retry", ["C17"], ("Pyro5/socketutil.py", "                    msglen = len(chunk)\n                    data.extend(chunk)\n                    break", "                    msglen = len(chunk)\n                    data.extend(chunk)\n                    if msglen == 1 and size > 2:\n                        msglen = 0; del data[:]\n                    break"))
+M("c17_timeout_as_closed", ["C17"], ("Pyro5/socketutil.py", "            except socket.timeout:\n                raise TimeoutError(\"receiving: timeout\")\n            except socket.error as x:\n                err = getattr(x, \"errno\", x.args[0])\n                if err not in ERRNO_RETRIES:\n                    raise ConnectionClosedError(\"receiving: connection lost: \" + str(x))\n                time.sleep(next(delays))  # a slight delay to wait before retrying\n    except socket.timeout:", "            except socket.error as x:\n                err = getattr(x, \"errno\", x.args[0])\n                if err not in ERRNO_RETRIES:\n                    raise ConnectionClosedError(\"receiving: connection lost: \" + str(x))\n                time.sleep(next(delays))  # a slight delay to wait before retrying\n    except socket.timeout:"))
